@@ -973,7 +973,7 @@ def m_next2(ctx):
     item, may_end = iter_item(c2, it, "nx")
     ctx.I.iter_sites[(ctx.frame, ctx.bi)] = bool(it.finite) and it.kind != "opaque"
     for h in ctx.I.hooks:
-        h("iter_next", interp=ctx.I, ctx=ctx, it=it)
+        h("iter_next", interp=ctx.I, ctx=ctx, it=it, item=item, item_state=T)
     cases = []
     if item is not None and not T.dead:
         cases.append((T, some(item)))
